@@ -86,12 +86,12 @@ func c14Run(t *testing.T, p c14Plan) (res vfResult) {
 		}
 		opts := ServiceOptions{TLSRedirect: true}
 		opts.Normalize()
-		if err := r.DeployService("svc", []string{tname}, opts, to, 5*time.Second, time.Second); err != nil {
+		if err := vfDeploy(r, "svc", []string{tname}, opts, to, 5*time.Second, time.Second); err != nil {
 			res.failf("setup-failed", "deploy: %v", err)
 			return
 		}
 		synctest.Wait()
-		f := w.front(NewServer(&Config{HttpPort: 80, HttpsPort: 443}, r).buildHandler(), "front:80")
+		f := w.front(r, "front:80")
 		desc := fmt.Sprintf("%+v", p)
 		finish := func() {
 			time.Sleep(time.Second)
